@@ -34,6 +34,15 @@ func main() {
 	job := fs.String("job", "", "engine-specific job name")
 	capS := fs.Int("cap", 0, "time cap in seconds (0: none)")
 	fs.Parse(os.Args[2:])
+	if strings.HasPrefix(*replay, "@") {
+		// a long witness comes in a file
+		data, err := os.ReadFile((*replay)[1:])
+		if err != nil {
+			fmt.Fprintln(os.Stderr, err)
+			os.Exit(3)
+		}
+		*replay = string(data)
+	}
 	sh := hx.ParseShard(*shard)
 	var deadline time.Time
 	if *capS > 0 {
